@@ -17,11 +17,11 @@
 #include "nfl/prng/crypto_stream_salsa20.h"
 
 static std::atomic<int> seed_calls(0);
+static unsigned char refkey[32];
 namespace nfl {
 void randombytes(unsigned char* x, unsigned long long xlen) { seed_calls++; for (unsigned long long i = 0; i < xlen; i++) x[i] = (unsigned char)(7 * i + 1); }
 void fastrandombytes(unsigned char* r, unsigned long long rlen);
 }
-static unsigned char refkey[32];
 static long identify(const unsigned char* out, size_t len, long maxn) {
   unsigned char ref[64];
   for (long n = 0; n <= maxn; n++) {
@@ -30,6 +30,47 @@ static long identify(const unsigned char* out, size_t len, long maxn) {
     if (memcmp(ref, out, len < 64 ? len : 64) == 0) return n;
   }
   return -1;
+}
+
+// ---------------- one Gaussian sampler object shared by several threads ----------------
+// calls to nfl::fastrandombytes made by the sampler code are interposed (-Wl,--wrap): in recording mode the nonce each call
+// obtained is identified from the returned bytes; in replay mode the keystream of a recorded nonce is served instead.
+#include <gmp.h>
+#include <mpfr.h>
+#include "nfl/prng/FastGaussianNoise.hpp"
+extern "C" void __real__ZN3nfl15fastrandombytesEPhy(unsigned char*, unsigned long long);
+static thread_local std::vector<long>* tl_log = 0; static thread_local const std::vector<long>* tl_replay = 0; static thread_local size_t tl_rpos = 0;
+static long g_maxn = 0;
+extern "C" void __wrap__ZN3nfl15fastrandombytesEPhy(unsigned char* r, unsigned long long len) {
+  if (tl_replay) {
+    long n = tl_rpos < tl_replay->size() ? (*tl_replay)[tl_rpos] : -1; tl_rpos++;
+    unsigned char nonce[8]; for (int i = 0; i < 8; i++) nonce[i] = (unsigned char)(((unsigned long long)n >> (8 * i)) & 0xff);
+    nfl_crypto_stream_salsa20_amd64_xmm6(r, len, nonce, refkey);
+    return;
+  }
+  __real__ZN3nfl15fastrandombytesEPhy(r, len);
+  if (tl_log) tl_log->push_back(len >= 8 ? identify(r, (size_t)len, g_maxn) : -2);
+}
+static void gshare(int T, int R, std::ostringstream& os) {
+  typedef nfl::FastGaussianNoise<uint8_t, uint32_t, 2> G;
+  const size_t LEN = 200;
+  G shared(3.0, 64, 1024);
+  std::vector<std::vector<std::vector<long> > > nonces(T, std::vector<std::vector<long> >(R));
+  std::vector<std::vector<std::vector<uint32_t> > > outs(T, std::vector<std::vector<uint32_t> >(R, std::vector<uint32_t>(LEN)));
+  g_maxn = (long)T * R * 6 + 16;
+  std::atomic<int> gate(0);
+  std::vector<std::thread> th;
+  for (int t = 0; t < T; t++) th.emplace_back([&, t] { gate++; while (gate.load() < T) {} for (int r = 0; r < R; r++) { tl_log = &nonces[t][r]; shared.getNoise(outs[t][r].data(), LEN); tl_log = 0; } });
+  for (auto& x : th) x.join();
+  std::vector<int> seen(g_maxn + 1, 0); long bad = 0, total = 0, mism = 0;
+  for (int t = 0; t < T; t++) for (int r = 0; r < R; r++) {
+    for (long n : nonces[t][r]) { total++; if (n < 0 || n > g_maxn) bad++; else seen[n]++; }
+    G priv(3.0, 64, 1024); std::vector<uint32_t> ref(LEN);
+    tl_replay = &nonces[t][r]; tl_rpos = 0; priv.getNoise(ref.data(), LEN); tl_replay = 0;
+    if (ref != outs[t][r]) mism++;
+  }
+  long dup = 0, gaps = 0; for (long n = 0; n < total; n++) { if (seen[n] > 1) dup++; if (seen[n] == 0) gaps++; }
+  os << "gshare requests=" << total << " unidentified=" << bad << " reused=" << dup << " gaps=" << gaps << " outputs_not_from_own_keystream=" << mism << " seedings=" << seed_calls.load();
 }
 
 // ---------------- cooperative scheduler ----------------
@@ -57,6 +98,7 @@ int main() {
   std::string line; std::getline(std::cin, line);
   std::istringstream is(line); std::string mode; is >> mode;
   std::ostringstream os;
+  if (mode == "gshare") { int T, R; is >> T >> R; gshare(T, R, os); puts(os.str().c_str()); return 0; }
   if (mode == "stress") {
     int T, R; is >> T >> R;
     std::vector<std::vector<std::vector<unsigned char> > > outs(T, std::vector<std::vector<unsigned char> >(R, std::vector<unsigned char>(16)));
